@@ -61,21 +61,43 @@ def add_bond_real(g, a, b, role, attrs):
         raise ValueError(role)
 
 
-def build(r):
-    """recipe -> real graph (public mutators only)"""
+def build(r, pool=None):
+    """recipe -> real graph (public mutators only).  With r["alias"] (or an
+    explicit ``pool`` shared between builds) descriptors with identical
+    class / atoms / parity are one and the same Python object wherever they
+    are stored - a caller is free to pass one instance several times."""
     G = classes()[r["cls"]]()
+    if pool is None and r.get("alias"):
+        pool = {}
+
+    def mk(d):
+        if pool is None:
+            return mk_desc(d)
+        key = (d[0], tuple(d[1]), d[2])
+        if key not in pool:
+            pool[key] = mk_desc(d)
+        return pool[key]
+
     for a, z, attrs in r["atoms"]:
         G.add_atom(a, z, **attrs)
     for a, b, role, attrs in r["bonds"]:
         add_bond_real(G, a, b, role, attrs)
-    for d in r.get("atom_stereo", ()):
-        G.set_atom_stereo(mk_desc(d))
-    for d in r.get("bond_stereo", ()):
-        G.set_bond_stereo(mk_desc(d))
-    for ch in r.get("atom_changes", ()):
-        G.set_atom_stereo_change(**{k: mk_desc(d) for k, d in ch.items()})
-    for ch in r.get("bond_changes", ()):
-        G.set_bond_stereo_change(**{k: mk_desc(d) for k, d in ch.items()})
+    def statics():
+        for d in r.get("atom_stereo", ()):
+            G.set_atom_stereo(mk(d))
+        for d in r.get("bond_stereo", ()):
+            G.set_bond_stereo(mk(d))
+
+    def changes():
+        for ch in r.get("atom_changes", ()):
+            G.set_atom_stereo_change(**{k: mk(d) for k, d in ch.items()})
+        for ch in r.get("bond_changes", ()):
+            G.set_bond_stereo_change(**{k: mk(d) for k, d in ch.items()})
+
+    # the order of the two kinds of call is the caller's business
+    for step in ((changes, statics) if r.get("changes_first")
+                 else (statics, changes)):
+        step()
     return G
 
 
@@ -184,6 +206,19 @@ def require_valid(r, strict=True):
 
 
 def shrink_candidates(r, strict=True):
+    """see _shrink_candidates; the aliasing flag of the recipe is kept, and
+    dropping it is a candidate of its own"""
+    for c in _shrink_candidates(r, strict):
+        for flag in ("alias", "changes_first"):
+            if r.get(flag):
+                c[flag] = True
+        yield c
+    for flag in ("alias", "changes_first"):
+        if r.get(flag):
+            yield {k: v for k, v in r.items() if k != flag}
+
+
+def _shrink_candidates(r, strict=True):
     """Smaller recipes that stay inside the generated domain: remove an atom
     (with its bonds and every descriptor that thereby loses validity), a
     bond, a descriptor, a change role, a bond role, an attribute."""
